@@ -36,20 +36,26 @@ func init() {
 			"A case is distinct and non-trivial when its judged graph contains a reference cycle or a pointer/map identity referenced from >=2 locations; signature = path + entry/scenario + plan JSON. " +
 			"Not generated (kept to the fixed corpus or out of scope): a []any that reaches itself without passing a pointer or map; two layers that both set Any with a pointer/struct/scalar payload. " +
 			"Leaf pointers into another node's ID field (interior pointers) are used in ~2.4% of path (a) graphs; they are outside the quantifier (not an edge between nodes), so their identity is measured (interior_pointer_identity_lost), never judged. " +
+			"Family R (1 of 16 cases, path a, entry shapes 1..5, heap nodes only): the same node struct, but every reference between nodes (struct fields, slice/array elements, map values, pointers held in interface values, pointees of pointer-to-pointer) is of a DEFINED pointer type (type Ref *Node), which is a pointer type like any other but not reflect.PointerTo(Node); judged exactly like family A (key suffix :defined-pointer-type). " +
+			"Layers sharing nodes (1 of 32 cases, path b): the defaults, the values of 2..3 sources and 0..2 values a watching source reports later are all cut from ONE materialisation of a family-B graph, so several layers of one stack refer to the same nodes, maps, slices and structs; the config type has three slots of type pointer-to-unnamed-struct with nil-able fields only (Pointerify maps that type to itself, so the config adopts a layer's copy of such a struct and later layers are merged through the pointer) plus Roots []*Node and Idx map[string]*Node. Expectation: every layer taken on its own (a private twin per layer), stacked field by field in source order; judged by reflect.DeepEqual and freshness against every value handed over (key suffix :layers-sharing-nodes); no identity walk. " +
 			"A fixed corpus (regression cases for the repaired defects and hand-written topologies) runs at every seed in shard 0, each case in its own child process.",
 		Assumptions: []string{
 			"interior pointers (a pointer to a field inside a node) are not edges of the quantified graphs: generated at low rate, observed only",
 			"freshness is judged for every pointer, map (empty ones included) and slice backing array with capacity > 0 reachable from a result, wherever it is held (struct field, element, map value, interface payload, pointee); zero-capacity slices are skipped (runtime.zerobase)",
 			"identity clause judged only at the locations the statement lists (pointer-/map-typed struct fields, slice/array elements, map values); references that are the dynamic value of an interface, pointees of pointer-to-pointer and the root handle are measured (held_identity_kept/lost), not judged",
 			"node types with a direct *Node struct field make ptrify.Pointerify recurse on the type, so family A is exercised through the deep copier only; dials.Config sees family B only",
+			"layers sharing nodes: what the copies of two different layers of one stack share with one another is not judged (the statement's identity clause is read per supplied value); one layer never puts the same struct into two slots (a later layer merged into one of them would be seen through the other: a layering question, not a copying one); the slot structs have no interface-typed field",
+			"family R mixes no unnamed *Node references with the defined pointer type (a node referenced through both types is outside what is generated)",
 			"in path (b) a source never sets Any when the defaults' Any is non-nil (merge semantics of two non-nil interface values are outside C03)",
 			"map keys are strings; scalar payloads are int and string",
 			"reflect.DeepEqual and the harness's reflect walks are trusted",
 		},
 		MinDistinct: map[string]int{"quick": 120000, "thorough": 1500000},
 		MinCounters: map[string]map[string]int64{
-			"quick":    {"iso_locations_compared": 10000000, "cycles_through_interface": 200000, "b_views_judged": 60000, "b_restacks": 20000, "fixed_cases_run": 40, "judged_ptr_locations": 3000000, "judged_map_locations": 500000, "held_refs_measured": 300000},
-			"thorough": {"iso_locations_compared": 150000000, "cycles_through_interface": 3000000, "b_views_judged": 800000, "b_restacks": 300000, "fixed_cases_run": 40, "judged_ptr_locations": 40000000, "judged_map_locations": 7000000, "held_refs_measured": 4000000},
+			"quick": {"iso_locations_compared": 10000000, "cycles_through_interface": 200000, "b_views_judged": 60000, "b_restacks": 20000, "fixed_cases_run": 40, "judged_ptr_locations": 3000000, "judged_map_locations": 500000, "held_refs_measured": 300000,
+				"a_graphs_defined_pointer_type": 8000, "layered_views_judged": 5000, "layered_stacks_merging_into_a_struct_a_later_layer_also_refers_to": 2000},
+			"thorough": {"iso_locations_compared": 150000000, "cycles_through_interface": 3000000, "b_views_judged": 800000, "b_restacks": 300000, "fixed_cases_run": 40, "judged_ptr_locations": 40000000, "judged_map_locations": 7000000, "held_refs_measured": 4000000,
+				"a_graphs_defined_pointer_type": 100000, "layered_views_judged": 60000, "layered_stacks_merging_into_a_struct_a_later_layer_also_refers_to": 25000},
 		},
 		Plan: func(tier string) fw.Plan {
 			if tier == "thorough" {
@@ -110,6 +116,11 @@ func runC03(w *fw.Worker) {
 			restacks := r.Intn(3)
 			w.BeginDesc(i, fmt.Sprintf("b-holder:restacks=%d:%s", restacks, c03JSON(p)))
 			c03RunHolderConfig(w, i, p, restacks, "")
+		} else if i%32 == 7 {
+			// two or three layers of one stack whose values share nodes
+			ls := c03GenLayered(r, maxNodes)
+			w.BeginDesc(i, "b-layers:"+c03JSON(ls))
+			c03RunLayered(w, i, ls, "")
 		} else if i%4 == 3 {
 			sc := c03GenScenario(r, maxNodes)
 			w.BeginDesc(i, "b:"+c03JSON(sc))
@@ -120,7 +131,16 @@ func runC03(w *fw.Worker) {
 			if r.Chance(6) && entry != 5 {
 				interior = 40
 			}
-			p := c03GenPlan(r, "A", c03GenOpts{MaxNodes: maxNodes, Interior: interior})
+			fam := "A"
+			if i%16 == 5 {
+				// family R: every reference is of a defined pointer type
+				// (heap nodes only: no holder entry shape)
+				fam = "R"
+				if entry == 5 {
+					entry = 0
+				}
+			}
+			p := c03GenPlan(r, fam, c03GenOpts{MaxNodes: maxNodes, Interior: interior})
 			if entry == 5 {
 				c03AddByValueNodes(r, p, r.Range(1, 6))
 			}
@@ -166,13 +186,26 @@ func c03RunDeepCopy(w *fw.Worker, i int, p *c03Plan, entry int, fixedName string
 	out := dials.VerifDeepCopy(inV)
 	w.Count("a_graphs", 1)
 	w.SetAdd("a_entry_shapes", c03EntryNames[entry])
+	where := "deepcopy"
+	if p.Fam == "R" {
+		where = "deepcopy:" + c03DefinedPtr
+		w.Count("a_graphs_defined_pointer_type", 1)
+		w.SetAdd("a_entry_shapes_defined_pointer_type", c03EntryNames[entry])
+	}
 	if !out.IsValid() || out.Type() != inV.Type() {
-		c03Viol(w, i, "wrong-result-type:deepcopy", fmt.Sprintf("VerifDeepCopy(%s) returned %v", inV.Type(), out), map[string]any{"plan": p, "entry": c03EntryNames[entry], "fixed": fixedName})
+		c03Viol(w, i, "wrong-result-type:"+where, fmt.Sprintf("VerifDeepCopy(%s) returned %v", inV.Type(), out), map[string]any{"plan": p, "entry": c03EntryNames[entry], "fixed": fixedName})
 		return
 	}
-	c03Judge(w, i, "deepcopy", expV, out, []c03Input{{v: inV}}, exp, map[string]any{"plan": p, "entry": c03EntryNames[entry], "fixed": fixedName},
+	ok := c03Judge(w, i, where, expV, out, []c03Input{{v: inV}}, exp, map[string]any{"plan": p, "entry": c03EntryNames[entry], "fixed": fixedName},
 		"a|"+c03EntryNames[entry]+"|"+c03JSON(p))
+	if p.Fam == "R" && ok {
+		w.Count("a_graphs_defined_pointer_type_held", 1)
+	}
 }
+
+// c03DefinedPtr: key suffix for graphs whose references are of a defined
+// pointer type (family R).
+const c03DefinedPtr = "defined-pointer-type"
 
 // c03Judge applies the three oracles to one result. exp is the harness-built
 // expectation (twin of the input), out what dials produced, ins every value
@@ -721,6 +754,8 @@ type c03FixedCase struct {
 	Plan     *c03Plan     // path (a)
 	Entry    int          // path (a)
 	Scenario *c03Scenario // path (b)
+	// Layered: layers of one stack sharing nodes (c03RunLayered)
+	Layered *c03Layered
 	// Custom: a hand-written case outside the plan machinery (c03RunCustom)
 	Custom string
 	// HolderRestacks >= 0 with a family-B Plan: c03RunHolderConfig
@@ -734,6 +769,11 @@ func c03RunFixed(w *fw.Worker, i int, fc *c03FixedCase) {
 	if fc.Custom != "" {
 		w.BeginDesc(i, "fixed custom:"+fc.Name)
 		c03RunCustom(w, i, fc)
+		return
+	}
+	if fc.Layered != nil {
+		w.BeginDesc(i, "fixed b-layers:"+fc.Name+":"+c03JSON(fc.Layered))
+		c03RunLayered(w, i, fc.Layered, fc.Name)
 		return
 	}
 	if fc.Scenario != nil {
@@ -837,7 +877,9 @@ func c03RunIsolated(w *fw.Worker, idx int, fc *c03FixedCase) {
 		key = fc.CrashKey
 	}
 	wit := map[string]any{"fixed": fc.Name, "stderr": fw.TrimStack(text), "top_dials_frame": fw.TopDialsFrame(text)}
-	if fc.Scenario != nil {
+	if fc.Layered != nil {
+		wit["layered"] = fc.Layered
+	} else if fc.Scenario != nil {
 		wit["scenario"] = fc.Scenario
 	} else {
 		wit["plan"] = fc.Plan
